@@ -129,6 +129,9 @@ func (w *c16Worker) Run(path []POp) (bfs.Outcome, error) {
 			return bfs.Outcome{}, err
 		}
 	}
+	for _, n := range w.c.Nodes {
+		n.Rig.RealProcess.VerifClearSessions()
+	}
 	account := fmt.Sprintf("%s/c16-%d", rig.DistWallet, w.serial.Add(1))
 	out := bfs.Outcome{}
 	for _, op := range path {
